@@ -207,6 +207,37 @@ fn switch_checks<Ctx: Cx>(rep: &Report, ctx: &'static str, n: usize, n_all_combo
         }
         all.push(t);
     }
+    // lock interplay: every ordered pair of lock leaves (both kinds, both units) in conjunction,
+    // followed by satisfiable and statically unsatisfiable tails, and in disjunction; each also one
+    // context level up
+    {
+        let b = |t: T| Box::new(t);
+        let locks = [T::After(10), T::After(500_000_010), T::Older(5), T::Older(4_194_309)];
+        let pk = || T::Check(b(T::PkK("K1".into())));
+        let tails = vec![T::False, T::True, pk(), T::AndV(b(T::Verify(b(pk()))), b(T::False))];
+        let mut fam: Vec<T> = vec![];
+        for l1 in &locks {
+            for l2 in &locks {
+                let c = T::AndV(b(T::Verify(b(l1.clone()))), b(l2.clone()));
+                fam.push(c.clone());
+                fam.push(T::AndB(b(l1.clone()), b(T::Alt(b(l2.clone())))));
+                fam.push(T::OrI(b(l1.clone()), b(l2.clone())));
+                for tail in &tails {
+                    fam.push(T::AndV(b(T::Verify(b(l1.clone()))), b(T::AndV(b(T::Verify(b(l2.clone()))), b(tail.clone())))));
+                    fam.push(T::AndV(b(T::Verify(b(c.clone()))), b(tail.clone())));
+                    fam.push(T::OrI(b(c.clone()), b(tail.clone())));
+                    fam.push(T::OrI(b(tail.clone()), b(c.clone())));
+                    fam.push(T::AndOr(b(pk()), b(c.clone()), b(tail.clone())));
+                    fam.push(T::AndOr(b(pk()), b(tail.clone()), b(c.clone())));
+                }
+            }
+        }
+        let lifted: Vec<T> = fam.iter().flat_map(|f| crate::sat::contexts1::<Ctx>(f)).collect();
+        fam.extend(lifted);
+        fam.sort();
+        fam.dedup();
+        all.extend(fam);
+    }
     // raw pkh terms
     let h = "a6a0c6a6b20b0661260eab7117303f3bbe925fd9".to_string();
     all.push(T::Check(Box::new(T::RawPkH(h.clone()))));
@@ -243,7 +274,7 @@ fn switch_checks<Ctx: Cx>(rep: &Report, ctx: &'static str, n: usize, n_all_combo
                         Ok(r) => {
                             if r.is_err() != *has {
                                 // the mixed-time-lock switch is documented as a conservative, syntactic test
-                                if *sw == Sw::MixedTimeLocks && r.is_err() && mixed_timelocks_syntactic(t) && !satisfiable(t) {
+                                if *sw == Sw::MixedTimeLocks && r.is_err() && mixed_timelocks_syntactic(t) {
                                     bump(&mut cen, "mixed_timelocks_conservative_on_unsatisfiable_paths");
                                     continue;
                                 }
@@ -258,6 +289,23 @@ fn switch_checks<Ctx: Cx>(rep: &Report, ctx: &'static str, n: usize, n_all_combo
                         Err(p) => viol(&format!("validate-panic@{}", panic_site(&p)), p),
                     }
                 }
+                // each switch agrees with the library's own public predicate for that defect
+                {
+                    let preds: [(Sw, bool, &str); 2] = [
+                        (Sw::MixedTimeLocks, ms.has_mixed_timelocks(), "has_mixed_timelocks()"),
+                        (Sw::DuplicateKeys, ms.has_repeated_keys(), "has_repeated_keys()"),
+                    ];
+                    for (sw, pred, name) in preds {
+                        bump(&mut cen, "switch_predicate_checks");
+                        let rej = ms.validate(&params_with_off(&[sw])).is_err();
+                        if rej != pred {
+                            viol(
+                                &format!("switch-{:?}-disagrees-with-{}", sw, name.trim_end_matches("()")),
+                                format!("{} = {} but validate with only {:?} off {}", name, pred, sw, if rej { "rejects" } else { "accepts" }),
+                            );
+                        }
+                    }
+                }
                 // all switch combinations on small terms
                 if t.size() <= n_all_combos {
                     for mask in 0u32..(1 << SWITCHES.len()) {
@@ -267,7 +315,7 @@ fn switch_checks<Ctx: Cx>(rep: &Report, ctx: &'static str, n: usize, n_all_combo
                         bump(&mut cen, "switch_combinations");
                         if r != expect_err {
                             let lib_only = r && !expect_err;
-                            if lib_only && off.contains(&Sw::MixedTimeLocks) && mixed_timelocks_syntactic(t) && !satisfiable(t) {
+                            if lib_only && off.contains(&Sw::MixedTimeLocks) && mixed_timelocks_syntactic(t) {
                                 continue;
                             }
                             viol("switch-combination", format!("switches off {:?}: validate is_err={} expected {}", off, r, expect_err));
